@@ -325,7 +325,10 @@ pub fn eval_history(env: &Env, ops: &[Op], pid: &str) -> ((u64, u64), Option<(St
             // (v) rebuilding the registry through the run-time builder merges two entries iff their definitions are identical
             {
                 let mut b = scale_info::PortableRegistryBuilder::new();
-                let ids: Vec<u32> = portable.types.iter().map(|t| b.register_type(t.ty.clone())).collect();
+                let half = portable.types.len() / 2;
+                let mut ids: Vec<u32> = portable.types[..half].iter().map(|t| b.register_type(t.ty.clone())).collect();
+                let _ = b.finish(); // taking the result in the middle changes nothing
+                ids.extend(portable.types[half..].iter().map(|t| b.register_type(t.ty.clone())));
                 for (i, a) in portable.types.iter().enumerate() {
                     for (j, c) in portable.types.iter().enumerate().skip(i + 1) {
                         if (ids[i] == ids[j]) != (a.ty == c.ty) {
